@@ -1,5 +1,6 @@
 import CfbVerif.Io.Model
 import CfbVerif.Props.C06
+import CfbVerif.Phys.Api
 /-!
 # C18 — results do not depend on buffering, I/O chunking, backend or run
 
@@ -140,5 +141,57 @@ theorem C18_bufsize (m₁ m₂ : Nat) (c0 : Handle.Bytes) (ops : List Handle.DOp
 /-! non-vacuity: a loop fed with 1-byte reads and interrupts -/
 example : readExact [1, 2, 3, 4, 5] [.interrupted, .short 1, .short 1, .interrupted, .short 7] 1 3 [] = some [2, 3, 4] := by
   decide
+
+end CfbVerif.Props.C18
+
+namespace CfbVerif.Props.C18
+open CfbVerif.Dir CfbVerif.Phys
+
+/-! ### format version, allocation history: the logical outcome of a history does not see them -/
+
+/-- run a history on the two-level model, collecting the results -/
+def prun : PState → List HOp → List HOut
+  | _, [] => []
+  | ps, op :: rest => (pstep ps op).2.1 :: prun (pstep ps op).1 rest
+
+theorem pstep_out_congr (ps1 ps2 : PState) (hs : ps1.s = ps2.s) (op : HOp) :
+    (pstep ps1 op).2.1 = (pstep ps2 op).2.1 := by
+  unfold pstep
+  rw [hs]
+  generalize hstep ps2.s op = r
+  obtain ⟨s', out⟩ := r
+  cases out with
+  | noHandle => rfl
+  | base o => simp only; split <;> split <;> rfl
+
+theorem pstep_s_congr (ps1 ps2 : PState) (hs : ps1.s = ps2.s) (op : HOp) :
+    (pstep ps1 op).1.s = (pstep ps2 op).1.s := by
+  unfold pstep
+  rw [hs]
+  generalize hstep ps2.s op = r
+  obtain ⟨s', out⟩ := r
+  cases out with
+  | noHandle => exact hs
+  | base o => simp only; split <;> split <;> rfl
+
+/-- **the results of a history depend on the logical state only** — not on the format version, not
+on where earlier operations put the sectors, not on what the free lists hold: two files with the
+same logical content answer every history identically, call by call -/
+theorem C18_results_ignore_allocation : ∀ (ops : List HOp) (ps1 ps2 : PState), ps1.s = ps2.s →
+    prun ps1 ops = prun ps2 ops := by
+  intro ops
+  induction ops with
+  | nil => intro _ _ _; rfl
+  | cons op rest ih =>
+    intro ps1 ps2 hs
+    unfold prun
+    rw [pstep_out_congr ps1 ps2 hs op, ih _ _ (pstep_s_congr ps1 ps2 hs op)]
+
+/-- **versions 3 and 4**: the same history on a fresh version-3 file and on a fresh version-4 file
+gives the same results (the versions differ in sector size, hence in every allocation decision —
+none of which a result can see) -/
+theorem C18_version_indep (maxBuf : Nat) (ops : List HOp) :
+    prun (PState.create false maxBuf) ops = prun (PState.create true maxBuf) ops :=
+  C18_results_ignore_allocation ops _ _ rfl
 
 end CfbVerif.Props.C18
